@@ -17,8 +17,9 @@ CLAIMED = {
         "sequences that cannot be enumerated.",
         "Trusted: cryptography/OpenSSL, the harness (network, clocks, scripted application). The application only "
         "uses the API as documented. A client address change is modelled as hard (old address dead) during the "
-        "adversarial phase and healed in the fair phase.",
-        "DESIGN.md 7 C01",
+        "adversarial phase and healed in the fair phase (variant rebind_storm: healed only for a server that, by "
+        "RFC 9000 9.3, cannot know the newer address). Variants: faulty, rebind_storm, quiet_receiver, fault_free.",
+        "DESIGN.md 7 C01, 14.4",
     ),
     "C02": (
         "exploration",
